@@ -256,6 +256,11 @@ def _run(case, cfg, w):
         return ns in cfg['served'] or (bool(cfg.get('catchall')) and
                                        is_served(ns))
 
+    def iq():
+        # the local-only form of disconnect() (what a message queue uses to
+        # apply a relayed request): same behaviour on a single server
+        return bool(w.choices.chance('app', 1, 3, 'ignore_queue'))
+
     peers = {}
     live = {}         # p -> {ns: sid} per current transport (model)
     all_sids = set()
@@ -483,7 +488,8 @@ def _run(case, cfg, w):
             if sid is None:
                 continue
             new_rx(p)
-            op_h = w.api('s', 'disconnect', sid, namespace=ns)
+            op_h = w.api('s', 'disconnect', sid, namespace=ns,
+                         ignore_queue=iq())
             w.settle()
             if op_h.exc is not None:
                 v.add('server_disconnect_raised', '%s: %r' % (where, op_h.exc),
@@ -544,8 +550,9 @@ def _run(case, cfg, w):
                             None)
                     add(sid, {'client disconnect'})
                 elif kind == 'sdisc':
-                    w.after(off, lambda sid=sid, ns=ns: w.api(
-                        's', 'disconnect', sid, namespace=ns))
+                    w.after(off, lambda sid=sid, ns=ns, q=iq(): w.api(
+                        's', 'disconnect', sid, namespace=ns,
+                        ignore_queue=q))
                     add(sid, {'server disconnect'})
                 elif kind == 'cdisc_reconnect':
                     # the client leaves the namespace and asks for it again
@@ -564,8 +571,9 @@ def _run(case, cfg, w):
                 elif kind == 'sdisc_other' and others:
                     o = others[0]
                     so = live[p][o]
-                    w.after(off, lambda so=so, o=o: w.api(
-                        's', 'disconnect', so, namespace=o))
+                    w.after(off, lambda so=so, o=o, q=iq(): w.api(
+                        's', 'disconnect', so, namespace=o,
+                        ignore_queue=q))
                     add(so, {'server disconnect'})
                 elif kind == 'cdisc_other' and others:
                     o = others[-1]
